@@ -72,6 +72,7 @@ type Exec struct {
 	cur        *State
 	lenient    bool
 	addrOf     map[Ptr]uint64
+	shapes     map[string]bool // distinct Choose vectors of completed paths (program shapes)
 	addrToPtr  map[uint64]Ptr
 }
 
@@ -345,6 +346,10 @@ func (ex *Exec) runPath(st *State) {
 	}
 	ex.paths++
 	ex.pathsEnded["returned"]++
+	if ex.shapes == nil {
+		ex.shapes = map[string]bool{}
+	}
+	ex.shapes[strings.Join(st.choices, ",")] = true
 }
 
 func (st *State) whereDetail(ex *Exec) string {
